@@ -290,6 +290,10 @@ class X:
             if it != "int":
                 fail(e, "list index of type %r" % (it,))
             return name, t[1], b + ib + [(name, "py_index %s %s" % (c, i), "cbind")]
+        if t == "world":
+            if it != "int":
+                fail(e, "world index of type %r" % (it,))
+            return name, "bool", b + ib + [(name, "py_index %s %s" % (c, i), "cbind")]      # one character of the bit string
         if isinstance(t, tuple) and t[0] == "res" and isinstance(t[1], tuple) and t[1][0] == "list":
             n2 = self.ctx.fresh()
             return name, t[1][1], b + ib + [(n2, "py_unres %s" % c, "cbind"), (name, "py_index %s %s" % (n2, i), "cbind")]
@@ -487,7 +491,11 @@ class X:
         for c in g.ifs:
             cc, cb = self.truth(c, env2)
             if cb:
-                fail(c, "a filter that may raise")
+                if len(g.ifs) != 1:
+                    fail(c, "several filters one of which may raise")
+                nm = self.ctx.fresh()
+                bit = bit + [(nm, "filter_m (fun %s => %s) %s" % (p, wrap_binds(cb, "Next %s" % cc), it), "cbind")]
+                return nm, p, env2, bit
             conds.append(cc)
         if conds:
             it = "(filter (fun %s => %s) %s)" % (p, " && ".join(conds), it)
@@ -672,7 +680,7 @@ class X:
             return self.tx(e.args[1], env)
         if name == "len":
             cs, ts, b = self.simple_args(e, env, 1)
-            if ts[0] is None or (isinstance(ts[0], tuple) and ts[0][0] in ("list", "dict", "set")):
+            if ts[0] is None or ts[0] == "world" or (isinstance(ts[0], tuple) and ts[0][0] in ("list", "dict", "set")):
                 return "(py_len %s)" % cs[0], "int", b      # an unknown type is left to Coq's type checker
             fail(e, "len of %r" % (ts[0],))
         if name == "hasattr" and len(e.args) == 2 and isinstance(e.args[1], ast.Constant) and e.args[1].value == "index":
@@ -701,6 +709,19 @@ class X:
                 fail(e, "min of %r" % (t,))
             nm = self.ctx.fresh()
             return nm, "int", b + [(nm, "py_min %s" % c, "cbind")]
+        if name == "min" and len(e.args) == 2 and not e.keywords:
+            cs, ts, b = self.simple_args(e, env, 2)
+            if not set(ts) <= {"int", "optint"}:
+                fail(e, "min of %r" % (ts,))
+            a0, _ = coerce(cs[0], ts[0], "optint")
+            a1, _ = coerce(cs[1], ts[1], "optint")
+            nm = self.ctx.fresh()
+            return nm, "int", b + [(nm, "py_min2_opt %s %s" % (a0, a1), "cbind")]      # None in a comparison: TypeError
+        if name == "range" and len(e.args) == 1 and not e.keywords:
+            c, t, b = self.tx(e.args[0], env)
+            if t != "int":
+                fail(e, "range of %r" % (t,))
+            return "(zrange %s)" % c, ("list", "int"), b
         if name == "max" and len(e.args) == 1 and len(e.keywords) == 1 and e.keywords[0].arg == "default":
             c, t, b = self.tx(e.args[0], env)
             d, td, bd = self.tx(e.keywords[0].value, env)
@@ -862,6 +883,21 @@ class X:
         fail(e, "call of %s" % name)
 
     def call_method(self, e, f, env):
+        # "".join([chars]): the bit string made of the characters
+        if isinstance(f.value, ast.Constant) and f.value.value == "" and f.attr == "join" and len(e.args) == 1 and not e.keywords:
+            c, t, b = self.tx(e.args[0], env)
+            if t != ("list", "bool"):
+                fail(e, "join of %r" % (t,))
+            return c, "world", b
+        # PreOCF.init_custom(ranks, None, signature, metadata): the new object is its ranks table and its signature
+        if isinstance(f.value, ast.Name) and f.value.id == "PreOCF" and f.attr == "init_custom" and len(e.args) == 4 and not e.keywords:
+            rc, rt, rb = self.tx(e.args[0], env)
+            sc, st, sb = self.tx(e.args[2], env)
+            if not (isinstance(rt, tuple) and rt[0] == "wdict") or st != ("list", "int"):
+                fail(e, "init_custom of %r" % ((rt, st),))
+            if not (isinstance(e.args[1], ast.Constant) and e.args[1].value is None):
+                fail(e, "init_custom with a belief base")
+            return "(%s, %s)" % (rc, sc), ("tuple", (rt, st)), rb + sb
         # Conditional_z3.translate_from_existing(c): the same conditional over z3 terms
         if isinstance(f.value, ast.Name) and f.value.id == "Conditional_z3" and f.attr == "translate_from_existing" \
                 and len(e.args) == 1 and not e.keywords:
@@ -1942,6 +1978,8 @@ TARGETS = [
         Fn("ranks2tpo", "py_ranks2tpo", [("ranks", ("wdict", "optint"))], locals_={"rank_groups": ("dict", WSET)}, narrow=["rank"]),
         Fn("tpo2ranks", "py_tpo2ranks", [("tpo", ("list", WSET)), ("rank_function", ("fn", ("int",), "int"))], locals_={"ranks": ("wdict", "optint")}),
         Fn("is_ocf", "py_PreOCF_is_ocf", [], cls="PreOCF", state=RANKS),
+        Fn("marginalize", "py_PreOCF_marginalize", [("marginalization", ("list", "int"))], cls="PreOCF",
+           state=RANKS + [("@signature", "at_signature", ("list", "int"))], locals_={"ranks": ("wdict", "optint")}),
     ]),
     dict(out="SrcOcfCustom", file="inference/preocf.py", requires=[], funcs=[
         Fn("rank_world", "py_CustomPreOCF_rank_world", [("world", "world"), ("force_calculation", "bool")], cls="CustomPreOCF", ret="int",
